@@ -22,20 +22,19 @@ theorem Sim.truthy {S c1 e1 v1 c2 e2 v2} (h : Sim S c1 e1 v1 c2 e2 v2) : (v1 ≠
   · subst h1; exact Iff.rfl
   · exact h3
 
-/-- the side conditions under which the soundness of `isSame` is proved -/
-def Good (S : Sem) (e : Expr) : Prop := annOK S e = true ∧ eqNeSafe e = true
+/-- the side condition under which the soundness of `isSame` is proved -/
+structure Good (S : Sem) (e : Expr) : Prop where
+  ann : annOK S e = true
 
 theorem Good.un {S a op e} (h : Good S (.un a op e)) : Good S e := by
-  obtain ⟨h1, h2⟩ := h
+  have h1 := h.1
   simp only [annOK, Bool.and_eq_true] at h1
-  simp only [eqNeSafe] at h2
-  exact ⟨h1.1.1, h2⟩
+  exact ⟨h1.1.1⟩
 
 theorem Good.bin {S a op l r} (h : Good S (.bin a op l r)) : Good S l ∧ Good S r := by
-  obtain ⟨h1, h2⟩ := h
+  have h1 := h.1
   simp only [annOK, Bool.and_eq_true] at h1
-  simp only [eqNeSafe, Bool.and_eq_true] at h2
-  exact ⟨⟨h1.1.1.1, h2.1.1⟩, ⟨h1.1.1.2, h2.1.2⟩⟩
+  exact ⟨⟨h1.1.1.1⟩, ⟨h1.1.1.2⟩⟩
 
 /-! ### evaluation of the node kinds -/
 
@@ -275,6 +274,14 @@ theorem eqNeCompare_op {k : Int} {n : Bool} {op : BinOp} (h : eqNeCompare k n op
   · exact Or.inr h.2
   · exact Or.inl h.2
 
+theorem eqNeCompare_k01 {k : Int} {n : Bool} {op : BinOp} (h : eqNeCompare k n op = true) : k = 0 ∨ k = 1 := by
+  simp only [eqNeCompare, Bool.or_eq_true, Bool.and_eq_true, beq_iff_eq] at h
+  rcases h with ((h | h) | h) | h
+  · exact Or.inl h.1.1
+  · exact Or.inl h.1.1
+  · exact Or.inr h.1.1
+  · exact Or.inr h.1.1
+
 /-- value of an `==`/`!=` between two 0/1 values -/
 theorem eqne_val {S ρ ac op l r vc x y} (hop : op = .eq ∨ op = .ne) (hc : eval S ρ (.bin ac op l r) = some vc)
     (hx : eval S ρ l = some x) (hy : eval S ρ r = some y) (x01 : x = 0 ∨ x = 1) (y01 : y = 0 ∨ y = 1) :
@@ -337,17 +344,7 @@ theorem eqNeCond_sound {S ρ cond ce expr ca a cb b vc ve}
                vc = b2i (if op = .eq then decide (k = u) else decide (k ≠ u))) := by
           intro n hcmp hbl
           have hop := eqNeCompare_op hcmp
-          have hsafe := gc.2
-          simp only [eqNeSafe, Bool.and_eq_true, Bool.or_eq_true, Bool.not_eq_true'] at hsafe
-          have hk01 : k = 0 ∨ k = 1 := by
-            rcases hsafe.2 with h | h
-            · rcases hop with rfl | rfl <;> simp at h
-            · rw [hkn] at h
-              simp only [Bool.or_eq_true, beq_iff_eq, Bool.not_eq_true'] at h
-              rcases h with (h | h) | h
-              · exact Or.inl h
-              · exact Or.inr h
-              · rw [h] at hbl; simp at hbl
+          have hk01 : k = 0 ∨ k = 1 := eqNeCompare_k01 hcmp
           have hlog : op.isLogic = false := by rcases hop with h | h <;> subst h <;> rfl
           obtain ⟨x, y, hx, hy, _⟩ := eval_bin_cop hlog hc
           have hbv := annOK_boolLike_cop gvt.1 hbl
